@@ -6,9 +6,9 @@ CLAIMS = ['host', 'priv']
 
 
 def units(tier, seed=0):
-    us = c18.shard_units(tier, CLAIMS, mode='usr', tag='/usr')
+    us = c18.shard_units(tier, CLAIMS, mode='usr', tag='/usr', seed=seed)
     if tier == 'thorough':
-        us += c18.shard_units('quick', CLAIMS, mode='usr', tag='/usr-ns', set_sys={'scr': 1})
+        us += c18.shard_units('quick', CLAIMS, mode='usr', tag='/usr-ns', set_sys={'scr': 1}, seed=seed)
     return us
 
 
